@@ -14,10 +14,10 @@ static int g_invert_calls = 0;
 static int g_table_mode = 0;          /* 0: low/high nibble products; 1: same, xored with 0x5a mask */
 static long g_encode_calls = 0;
 
-void refisal_fail_invert_at(int n) { g_fail_invert_at = n; g_invert_calls = 0; }
-int refisal_invert_calls(void) { return g_invert_calls; }
-void refisal_set_table_mode(int m) { g_table_mode = m; }
-long refisal_encode_calls(void) { return g_encode_calls; }
+void refisal_fail_invert_at(int n) { __atomic_store_n(&g_fail_invert_at, n, __ATOMIC_RELAXED); __atomic_store_n(&g_invert_calls, 0, __ATOMIC_RELAXED); }
+int refisal_invert_calls(void) { return __atomic_load_n(&g_invert_calls, __ATOMIC_RELAXED); }
+void refisal_set_table_mode(int m) { __atomic_store_n(&g_table_mode, m, __ATOMIC_RELAXED); }
+long refisal_encode_calls(void) { return __atomic_load_n(&g_encode_calls, __ATOMIC_RELAXED); }
 
 unsigned char gf_mul(unsigned char a, unsigned char b)
 {
@@ -73,8 +73,11 @@ int gf_invert_matrix(unsigned char *in_mat, unsigned char *out_mat, const int n)
     int i, j, k;
     unsigned char temp;
     assert(in_mat && out_mat && n > 0);
-    if (g_fail_invert_at >= 0 && g_invert_calls++ == g_fail_invert_at) { memset(out_mat, 0xEE, (size_t)n * n); return -1; }
-    if (g_fail_invert_at < 0) g_invert_calls++;
+    {
+        int fail_at = __atomic_load_n(&g_fail_invert_at, __ATOMIC_RELAXED);
+        int call = __atomic_fetch_add(&g_invert_calls, 1, __ATOMIC_RELAXED);
+        if (fail_at >= 0 && call == fail_at) { memset(out_mat, 0xEE, (size_t)n * n); return -1; }
+    }
     memset(out_mat, 0, (size_t)n * n);
     for (i = 0; i < n; i++) out_mat[i * n + i] = 1;
     for (i = 0; i < n; i++) {
@@ -110,7 +113,7 @@ void ec_init_tables(int k, int rows, unsigned char *a, unsigned char *g_tbls)
             for (t = 0; t < 16; t++) {
                 tb[t] = gf_mul(c, (unsigned char)t);
                 tb[16 + t] = gf_mul(c, (unsigned char)(t << 4));
-                if (g_table_mode == 1) { tb[t] ^= 0x5a; tb[16 + t] ^= 0x5a; }
+                if (__atomic_load_n(&g_table_mode, __ATOMIC_RELAXED) == 1) { tb[t] ^= 0x5a; tb[16 + t] ^= 0x5a; }
             }
         }
 }
@@ -118,7 +121,7 @@ void ec_init_tables(int k, int rows, unsigned char *a, unsigned char *g_tbls)
 void ec_encode_data(int len, int k, int rows, unsigned char *g_tbls, unsigned char **data, unsigned char **coding)
 {
     int i, j, b;
-    g_encode_calls++;
+    __atomic_fetch_add(&g_encode_calls, 1, __ATOMIC_RELAXED);
     assert(len >= 0 && k > 0 && rows >= 0);
     assert(g_tbls && data && (coding || rows == 0));
     for (i = 0; i < rows; i++) {
@@ -128,7 +131,7 @@ void ec_encode_data(int len, int k, int rows, unsigned char *g_tbls, unsigned ch
             const unsigned char *tb = g_tbls + ((size_t)(i * k + j)) * 32;
             unsigned char lo[16], hi[16];
             assert(data[j] || len == 0);
-            for (b = 0; b < 16; b++) { lo[b] = tb[b]; hi[b] = tb[16 + b]; if (g_table_mode == 1) { lo[b] ^= 0x5a; hi[b] ^= 0x5a; } }
+            for (b = 0; b < 16; b++) { lo[b] = tb[b]; hi[b] = tb[16 + b]; if (__atomic_load_n(&g_table_mode, __ATOMIC_RELAXED) == 1) { lo[b] ^= 0x5a; hi[b] ^= 0x5a; } }
             for (b = 0; b < len; b++) { unsigned char s = data[j][b]; coding[i][b] ^= lo[s & 15] ^ hi[s >> 4]; }
         }
     }
